@@ -1,4 +1,4 @@
-from . import cycle, sidecar, proxy
+from . import cycle, sidecar, proxy, store
 CHECKS = {}
 for p in cycle.PROPS:
     CHECKS[p] = cycle.check
@@ -6,3 +6,4 @@ CHECKS['C10'] = sidecar.check
 CHECKS['C14'] = sidecar.check
 CHECKS['C12'] = proxy.check
 CHECKS['C13'] = proxy.check
+CHECKS['C09'] = store.check
